@@ -1048,37 +1048,53 @@ fn history_case(opts: &Opts, case: &Case, entry: &Entry, sink: &mut Sink) {
             }
         }
     }
-    let run_seq = |seq: &[usize], threads: bool| -> Vec<Real> {
-        if !threads {
-            seq.iter()
+    // mode 0: every call gets its own string; mode 1: all calls of a history read their input from one
+    // reused buffer (same address, different content - the usual line-buffer loop); mode 2: consecutive
+    // calls on alternating fresh threads
+    let run_seq = |seq: &[usize], mode: usize| -> Vec<Real> {
+        match mode {
+            0 => seq
+                .iter()
                 .map(|&ix| {
                     user::reset(answers.clone());
                     (entry.run)(&inputs[ix], Mode::Plain)
                 })
-                .collect()
-        } else {
-            // consecutive calls on alternating fresh threads
-            let mut out = Vec::new();
-            for &ix in seq {
-                let inp = inputs[ix].clone();
-                let f = entry.run;
-                let h = std::thread::spawn(move || {
-                    crate::real::silence_panics();
-                    user::reset(Answers::default());
-                    f(&inp, Mode::Plain)
-                });
-                out.push(h.join().unwrap_or(Real::Panic("thread".into())));
+                .collect(),
+            1 => {
+                let mut buf = String::with_capacity(256);
+                seq.iter()
+                    .map(|&ix| {
+                        buf.clear();
+                        buf.push_str(&inputs[ix]);
+                        user::reset(answers.clone());
+                        (entry.run)(&buf, Mode::Plain)
+                    })
+                    .collect()
             }
-            out
+            _ => {
+                let mut out = Vec::new();
+                for &ix in seq {
+                    let inp = inputs[ix].clone();
+                    let f = entry.run;
+                    let h = std::thread::spawn(move || {
+                        crate::real::silence_panics();
+                        user::reset(Answers::default());
+                        f(&inp, Mode::Plain)
+                    });
+                    out.push(h.join().unwrap_or(Real::Panic("thread".into())));
+                }
+                out
+            }
         }
     };
     for (si, seq) in seqs.iter().enumerate() {
         progress(opts, case.id, si);
-        for threads in [false, true] {
+        for mode in [0usize, 1, 2] {
+            let threads = mode == 2;
             if threads && seq.len() != 2 {
                 continue;
             }
-            let res = run_seq(seq, threads);
+            let res = run_seq(seq, mode);
             sink.evaluations += 1;
             if seq.len() > 1 {
                 sink.nontrivial += 1;
@@ -1093,7 +1109,7 @@ fn history_case(opts: &Opts, case: &Case, entry: &Entry, sink: &mut Sink) {
                         "result-depends-on-history",
                         format!("{} (reference model: {:?})", baseline[seq[k]].short(), expect[seq[k]]),
                         r.short(),
-                        json!({"history": seq.iter().map(|&i| inputs[i].clone()).collect::<Vec<_>>(), "position_in_history": k, "threads": threads}),
+                        json!({"history": seq.iter().map(|&i| inputs[i].clone()).collect::<Vec<_>>(), "position_in_history": k, "mode": (["own strings", "one reused buffer", "alternating threads"][mode])}),
                     );
                     break;
                 }
